@@ -52,7 +52,7 @@ ATTACH_SEPS = ('', '', ' ', '  ', '\t', '\n', ' \n', '\n ', ' \n\t ')
 
 class Node:
     __slots__ = ('kind', 'name', 'args', 'body', 'text', 'delim', 'span', 'bspan', 'math', 'pre', 'special',
-                 'sig')
+                 'sig', 'late_bracket')
 
     def __init__(self, kind, name=None, args=None, body=None, text=None, delim=None, math=False):
         self.kind = kind
@@ -67,6 +67,7 @@ class Node:
         self.pre = ''         # separator before the name group of an env (spaced variant)
         self.special = False
         self.sig = None
+        self.late_bracket = False
 
     def copy(self):
         n = Node(self.kind, self.name, [a.copy() for a in self.args],
@@ -478,7 +479,7 @@ class Gen:
         return self.cross_twin(Node('cmd', name=name, args=self.args_generic(ctx, depth)))
 
     def sigcmd(self, ctx, depth):
-        k = self.int(0, 5)
+        k = self.int(0, 6)
         inner = ctx.derive(bracket=False, hostile_ok=False)
         ctx = ctx.derive(hostile_ok=False)
         if k == 0:
@@ -496,12 +497,17 @@ class Gen:
         elif k == 4:
             n = Node('cmd', name='def', args=[Arg('cmdarg', name=self.pick(('x', 'foo', 'R'))),
                                               Arg('{', self.body(inner, depth - 1, small=True))])
-        else:
+        elif k == 5:
             n = Node('cmd', name='noindent', args=[])
+        else:
+            # the optional argument may also follow the title (read by the second pass of the argument reader)
+            n = Node('cmd', name='section', args=[Arg('{', self.body(inner, depth - 1, small=True)),
+                                                  Arg('[', self.body(ctx.derive(bracket=True), depth - 1, small=True))])
+            n.late_bracket = True
         n.sig = True
         if self.p.spaced:
             for a in n.args:
-                if a.kind != 'cmdarg':
+                if a.kind != 'cmdarg' and not (k == 6 and a.kind == '['):
                     a.pre = self.pick(ATTACH_SEPS)
         return n
 
